@@ -299,6 +299,16 @@ def shrink(scn, still_fails, budget=150):
                 scn = cand
                 changed = True
                 break
+    # scenarios that carry a plain list of jobs (rendering): drop jobs one by one
+    changed = True
+    while changed and tries < budget and isinstance(scn.get("jobs"), list):
+        changed = False
+        for i in range(len(scn["jobs"]) - 1, -1, -1):
+            cand = dict(scn, jobs=scn["jobs"][:i] + scn["jobs"][i + 1:])
+            if attempt(cand):
+                scn = cand
+                changed = True
+                break
     # simplify fields of scheduling ops
     for i, o in enumerate(scn.get("ops", [])):
         if o["op"] != "sch":
